@@ -80,6 +80,16 @@ t("Affine::add vec3 vec3", "let _ = v3::<{0}>().add(&v3::<{1}>());", [B, B], eq)
 t("vec3.lerp", "let _ = v3::<{0}>().lerp(&v3::<{1}>(), 0.5);", [B, B], eq)
 t("pt3.lerp", "let _ = p3::<{0}>().lerp(&p3::<{1}>(), 0.5);", [B, B], eq)
 t("pt2.lerp", "let _ = p2::<{0}>().lerp(&p2::<{1}>(), 0.5);", [B, B], eq)
+# reference arguments: a point where a vector (difference) is expected, reachable only through method / UFCS forms
+t("Affine::add pt3 pt3 (never)", "let _ = Affine::add(&p3::<{0}>(), &p3::<{1}>());", [B, B], lambda a, b: False)
+t("pt3.add(&pt3) (never)", "let _ = p3::<{0}>().add(&p3::<{1}>());", [B, B], lambda a, b: False)
+t("vec3.add(&pt3) (never)", "let _ = v3::<{0}>().add(&p3::<{1}>());", [B, B], lambda a, b: False)
+t("vec3.sub(&pt3) (never)", "let _ = v3::<{0}>().sub(&p3::<{1}>());", [B, B], lambda a, b: False)
+t("vec3.dot(&pt3) (never)", "let _ = v3::<{0}>().dot(&p3::<{1}>());", [B, B], lambda a, b: False)
+t("vec3.cross(&pt3) (never)", "let _ = v3::<{0}>().cross(&p3::<{1}>());", [B, B], lambda a, b: False)
+t("mat4.apply(&pt3) (never)", "let _ = m4::<{0}, {1}>().apply(&p3::<{0}>());", [B, B], lambda a, b: False)
+t("mat3.apply(&pt2) (never)", "let _ = m3::<{0}, {1}>().apply(&p2::<{0}>());", [B, B], lambda a, b: False)
+t("vec3.lerp(&pt3) (never)", "let _ = v3::<{0}>().lerp(&p3::<{0}>(), 0.5);", [B], lambda a: False)
 t("pt3.lerp vec3 (never)", "let _ = p3::<{0}>().lerp(&v3::<{1}>(), 0.5);", [B, B], lambda a, b: False)
 t("vec3.dot", "let _ = v3::<{0}>().dot(&v3::<{1}>());", [B, B], eq)
 t("vec3.cross", "let _: Vec3<{2}> = v3::<{0}>().cross(&v3::<{1}>());", [B, B, B], lambda a, b, c: a == b == c)
@@ -229,7 +239,9 @@ RENDER = '''let vs = |v: Vertex3<f32, {0}>, m: &Mat4x4<{1}>| vertex({2}, v.attri
     render(tris, verts, &sh, &m, {3}, &mut tgt, &Context::default());'''
 POS = ["m.apply(&v.pos)", "v.pos", "v.pos.to_vec()"]
 MAPS = ["RealToProj<BA>", "RealToProj<BB>", "RealToReal<3, BA, BB>"]
-VPS = ["viewport(pt2(0, 0)..pt2(4, 4))", "Mat4x4::<NdcToScreen>::identity()", "Mat4x4::<ViewToProj>::identity()", "m4::<BA, BB>()"]
+VPS = ["viewport(pt2(0, 0)..pt2(4, 4))", "Mat4x4::<NdcToScreen>::identity()", "Mat4x4::<ViewToProj>::identity()", "m4::<BA, BB>()",
+       # right destination (screen space), wrong source space
+       "m4::<World, retrofire_core::render::Screen>()", "m4::<BA, retrofire_core::render::Screen>()"]
 def render_ok(basis, mp, pos, vp):
     if pos != "m.apply(&v.pos)":
         return False  # output position would not be a ProjVec4
